@@ -272,4 +272,28 @@ func init() {
 		Variant{Name: "watermark replay without recover", Property: "C08", File: pst,
 			Old: "\t\t// The owner closes this channel before it is unregistered: guard the send with recover\n\t\tfunc() {\n\t\t\tdefer func() {\n\t\t\t\tif panicErr := recover(); panicErr != nil {\n\t\t\t\t\tr.logger.Warn(\"Failed to send pending watermark to local shard (channel closed)\",\n\t\t\t\t\t\ttag.NewStringTag(\"targetShard\", ClusterShardIDtoString(targetShardID)))\n\t\t\t\t}\n\t\t\t}()\n", New: "\t\tfunc() {\n", Expect: "O8.2"},
 	)
+	// ---- C06
+	ast := "proxy/admin_stream_transfer.go"
+	addVariants(
+		Variant{Name: "latch not tripped when the message direction stops", Property: "C06", File: ast,
+			Old: "\tdefer func() {\n\t\tf.shutdownChan.Shutdown()\n\t\twg.Done()\n\t}()\n\n\tdataChan := startListener(f.sourceStreamClient, f.shutdownChan)", New: "\tdefer func() {\n\t\twg.Done()\n\t}()\n\n\tdataChan := startListener(f.sourceStreamClient, f.shutdownChan)", Expect: "O6.1"},
+		Variant{Name: "loop continues after a failed Send", Property: "C06", File: ast,
+			Old: "\t\t\t\t\tf.logger.Debug(\"targetStreamServer.Send encountered EOF\", tag.Error(err))\n\t\t\t\t\tmetrics.AdminServiceStreamTerminatedCount.WithLabelValues(append(f.metricLabelValues, \"target\")...).Inc()\n\t\t\t\t}\n\t\t\t\treturn\n", New: "\t\t\t\t\tf.logger.Debug(\"targetStreamServer.Send encountered EOF\", tag.Error(err))\n\t\t\t\t\tmetrics.AdminServiceStreamTerminatedCount.WithLabelValues(append(f.metricLabelValues, \"target\")...).Inc()\n\t\t\t\t}\n\t\t\t\tcontinue\n", Expect: "O6.4"},
+		Variant{Name: "message mutated before relaying", Property: "C06", File: ast,
+			Old: "\t\t\tif err = f.targetStreamServer.Send(resp); err != nil {", New: "\t\t\tattr.Messages.ExclusiveHighWatermark++\n\t\t\tif err = f.targetStreamServer.Send(resp); err != nil {", Expect: "O6.3"},
+		Variant{Name: "outgoing context never cancelled", Property: "C06", File: ast,
+			Old: "\toutgoingContext, cancel := context.WithCancel(outgoingContext)\n\tdefer cancel()\n", New: "\toutgoingContext, cancel := context.WithCancel(outgoingContext)\n\t_ = cancel\n", Expect: "O6.2"},
+		Variant{Name: "unknown message kind skipped", Property: "C06", File: ast,
+			Old: "\t\t\t\t\"StreamWorkflowReplicationMessages encountered unknown type: %T %v\", attr, attr,\n\t\t\t))))\n\t\t\treturn\n\t\t}\n\t}\n}\n\nfunc (f *StreamForwarder) forwardAcks", New: "\t\t\t\t\"StreamWorkflowReplicationMessages encountered unknown type: %T %v\", attr, attr,\n\t\t\t))))\n\t\t}\n\t}\n}\n\nfunc (f *StreamForwarder) forwardAcks", Expect: "O6.4"},
+		Variant{Name: "listener hand-off without the latch", Property: "C06", File: ast,
+			Old: "\t\t\tselect {\n\t\t\tcase targetStreamServerData <- ValueWithError[T]{val: req, err: err}:\n\t\t\tcase <-shutdownChan.Channel():\n\t\t\t\treturn\n\t\t\t}", New: "\t\t\ttargetStreamServerData <- ValueWithError[T]{val: req, err: err}", Expect: "O6.2"},
+		Variant{Name: "closeSent unbuffered again", Property: "C06", File: ast,
+			Old: "\t\tcloseSent := make(chan struct{}, 1)\n", New: "\t\tcloseSent := make(chan struct{})\n", Expect: "O6.5"},
+		Variant{Name: "routing mode falls through to the pass-through forwarder", Property: "C06", File: ast,
+			Old: "\t\treturn streamRouting(logger, streamServer, sourceClusterShardID, targetClusterShardID, shardManager, adminClientReverse, routingParameters, lifetime)\n\t}", New: "\t\tif routingParameters.OverrideShardCount > 0 {\n\t\t\treturn streamRouting(logger, streamServer, sourceClusterShardID, targetClusterShardID, shardManager, adminClientReverse, routingParameters, lifetime)\n\t\t}\n\t}", Expect: "O6.6"},
+		Variant{Name: "acks relayed from a fresh request", Property: "C06", File: ast,
+			Old: "\t\t\tif err = f.sourceStreamClient.Send(req); err != nil {", New: "\t\t\tif err = f.sourceStreamClient.Send(&adminservice.StreamWorkflowReplicationMessagesRequest{Attributes: attr}); err != nil {", Expect: "O6.3"},
+		Variant{Name: "ack relay loop ignores the latch", Property: "C06", File: ast,
+			Old: "\t\tvar req *adminservice.StreamWorkflowReplicationMessagesRequest\n\t\tvar err error\n\t\tselect {\n\t\tcase <-f.shutdownChan.Channel():\n\t\t\treturn\n\t\tcase valueWithError := <-dataChan:\n\t\t\treq = valueWithError.val\n\t\t\terr = valueWithError.err\n\t\t}", New: "\t\tvar req *adminservice.StreamWorkflowReplicationMessagesRequest\n\t\tvar err error\n\t\tvalueWithError := <-dataChan\n\t\treq = valueWithError.val\n\t\terr = valueWithError.err\n", Expect: "O6.2"},
+	)
 }
